@@ -38,6 +38,8 @@ const UN: u16 = 21838;
 const OB: u16 = 20290;
 fn tagn(t: Tag) -> u32 { ((t.0 as u32) << 16) | t.1 as u32 }
 
+pub fn cprim_pub(p: &PrimitiveValue) -> CPrim { cprim(p) }
+pub fn c_prim_pub(p: &CPrim) -> String { c_prim(p) }
 fn cprim(p: &PrimitiveValue) -> CPrim {
     use PrimitiveValue::*;
     match p {
@@ -210,7 +212,7 @@ fn pick_tag(r: &mut Rng) -> Tag {
     Tag(g, e)
 }
 fn pick_seq_tag(r: &mut Rng) -> Tag {
-    let (g, e) = match r.below(10) { 0..=5 => *r.pick(SEQ_TAGS), 6 => *r.pick(STD_TAGS), 7 | 8 => *r.pick(PRIV_TAGS), _ => *r.pick(UNK_TAGS) };
+    let (g, e) = match r.below(20) { 0..=11 => *r.pick(SEQ_TAGS), 12 => *r.pick(STD_TAGS), 13..=16 => *r.pick(PRIV_TAGS), _ => *r.pick(UNK_TAGS) };
     Tag(g, e)
 }
 fn small_str(r: &mut Rng) -> String {
@@ -313,7 +315,7 @@ fn gen_op(r: &mut Rng, cur: &InMemDicomObject) -> GenOp {
             if !seqs.is_empty() && r.chance(2, 3) { t = *r.pick(&seqs); }
         }
         let n_items = here.and_then(|o| o.get(t)).and_then(|e| e.items()).map(|i| i.len() as u32);
-        let item = match n_items { Some(n) => match r.below(6) { 0 => n + 1, 1 | 2 => n, _ => r.below(n as u64 + 1) as u32 }, None => *r.pick(&[0u32, 0, 0, 1]) };
+        let item = match n_items { Some(n) => match r.below(12) { 0 => n + 1, 1 | 2 | 3 => n, _ => r.below(n as u64 + 1) as u32 }, None => *r.pick(&[0u32, 0, 0, 0, 0, 0, 0, 1]) };
         here = here.and_then(|o| o.get(t)).and_then(|e| e.items()).and_then(|i| i.get(item as usize));
         steps.push((t, item));
     }
@@ -322,8 +324,12 @@ fn gen_op(r: &mut Rng, cur: &InMemDicomObject) -> GenOp {
         let tags: Vec<Tag> = o.iter().map(|e| e.header().tag).collect();
         if !tags.is_empty() && r.coin() { leaf = *r.pick(&tags); }
     }
+    // most of the time keep value-setting actions away from sequence attributes (known class PrimitiveUnderSqVr)
+    let leaf_is_sq = std_vr(leaf) == VR::SQ || here.and_then(|o| o.get(leaf)).map(|e| e.header().vr == VR::SQ).unwrap_or(false);
     let s = small_str(r);
-    let (action, ract, ca): (AttributeAction, RAct, String) = match r.below(22) {
+    let roll = r.below(22);
+    let roll = if leaf_is_sq && (5..=19).contains(&roll) && r.chance(4, 5) { *r.pick(&[0u64, 2, 3, 20]) } else { roll };
+    let (action, ract, ca): (AttributeAction, RAct, String) = match roll {
         0 | 1 => (AttributeAction::Remove, RAct::Remove, "ARemove".into()),
         2 => (AttributeAction::Empty, RAct::Empty, "AEmpty".into()),
         3 | 4 => { let vr = *r.pick(&[VR::LO, VR::SQ, VR::UN, VR::US, VR::OB, VR::IS, VR::PN]); (AttributeAction::SetVr(vr), RAct::SetVr(vr_code(vr)), format!("(ASetVr {})", vr_code(vr))) }
@@ -375,7 +381,7 @@ fn apply_err_class(e: &ApplyError) -> u32 {
 // ---------------------------------------------------------------- write / read back
 fn shape_ok(o: &CObj) -> bool {
     o.iter().all(|(t, (vr, v))| match v {
-        CVal::Prim(p) => *vr != SQ || prim_is_empty(p),
+        CVal::Prim(_) => *vr != SQ,
         CVal::Seq(items) => *vr == SQ && items.iter().all(shape_ok),
         CVal::Pix(..) => *vr == OB && *t == 0x7FE0_0010,
     })
@@ -424,11 +430,23 @@ fn skeleton(o: &InMemDicomObject, with_values: bool) -> String {
     v.join(",")
 }
 
+/// Implicit VR: the reader takes the VR from the dictionary, so the structure only survives when
+/// the dictionary does not call a non-sequence element a sequence
+fn ile_safe(o: &CObj) -> bool {
+    o.iter().all(|(t, (_, v))| match v {
+        CVal::Prim(_) => dict_vr(*t) != Some(SQ),
+        CVal::Seq(items) => items.iter().all(ile_safe),
+        CVal::Pix(..) => true,
+    })
+}
+
 const TS_LIST: &[&str] = &["1.2.840.10008.1.2", "1.2.840.10008.1.2.1", "1.2.840.10008.1.2.2", "1.2.840.10008.1.2.1.99"];
 
 /// None: fine. Some(class, detail): the object cannot be written / does not read back.
 fn write_read(o: &InMemDicomObject, values: bool) -> Option<(String, String)> {
+    let ile_ok = ile_safe(&cobj(o));
     for uid in TS_LIST {
+        if *uid == "1.2.840.10008.1.2" && !ile_ok { continue; }
         let ts = TransferSyntaxRegistry.get(uid).unwrap();
         let mut out = vec![];
         match catch(|| o.write_dataset_with_ts(&mut out, ts)) {
@@ -451,6 +469,18 @@ fn write_read(o: &InMemDicomObject, values: bool) -> Option<(String, String)> {
     None
 }
 
+/// a data set sequence stored under a tag that the dictionary lists with a non-sequence VR
+/// (possible through nested constructive operations when that VR is not exact, e.g. Pixel Data "OB or OW")
+fn seq_under_non_sq_tag(o: &CObj) -> bool {
+    o.iter().any(|(t, (_, v))| match v {
+        CVal::Seq(items) => {
+            let listed_non_sq = StandardDataDictionary.by_tag(Tag((*t >> 16) as u16, *t as u16)).map(|e| e.vr().exact() != Some(VR::SQ)).unwrap_or(false);
+            listed_non_sq || items.iter().any(seq_under_non_sq_tag)
+        }
+        _ => false,
+    })
+}
+
 fn tokens_panic(o: &InMemDicomObject) -> bool { catch(|| o.clone().into_tokens().count()).is_none() }
 
 fn tags_of(o: &CObj, acc: &mut Vec<u32>) {
@@ -465,6 +495,9 @@ fn history_case(r: &mut Rng, init: InMemDicomObject, nops: usize, bucket: &str, 
     let mut steps = vec![];
     let mut descs = vec![];
     let mut fail: Option<(String, String)> = None;
+    // a failure of a known class does not end the scrutiny of the history: a later failure of another class replaces it
+    const KNOWN: &[&str] = &["NestedFailureLeavesPath", "PrimitiveUnderSqVr", "SequenceUnderNonSqTag"];
+    let is_open = |f: &Option<(String, String)>| match f { None => true, Some((c, _)) => KNOWN.contains(&c.as_str()) };
     let mut fixed = fixed_ops.map(|v| v.into_iter());
     let mut all_shape_ok = shape_ok(&c0);
     for _ in 0..nops {
@@ -478,7 +511,8 @@ fn history_case(r: &mut Rng, init: InMemDicomObject, nops: usize, bucket: &str, 
         descs.push(format!("{} => {}", g.desc, cres));
         // reference semantics
         let want = ref_apply(&before, &g.steps, g.leaf, &g.ract);
-        if fail.is_none() {
+        if is_open(&fail) {
+            let prev = fail.take();
             match (&want, &res) {
                 (Ok(w), Some(Ok(()))) => { if *w != after { fail = Some(("RefinementDiffers".into(), format!("{}: expected {:?} got {:?}", g.desc, w, after))); } }
                 (Err(c), Some(Err(e))) => {
@@ -491,19 +525,25 @@ fn history_case(r: &mut Rng, init: InMemDicomObject, nops: usize, bucket: &str, 
                 (_, None) => fail = Some(("ApplyPanic".into(), g.desc.clone())),
                 _ => fail = Some(("OutcomeDiffers".into(), format!("{}: expected {:?} got {}", g.desc, want.as_ref().map(|_| "Ok").map_err(|e| *e), cres))),
             }
+            if fail.is_none() { fail = prev; }
         }
         let wp = tokens_panic(&obj);
         all_shape_ok = all_shape_ok && shape_ok(&after);
-        if fail.is_none() {
+        if is_open(&fail) {
+            let prev = fail.take();
             if wp {
                 let class = if !shape_ok(&after) { "WritePanicShape" } else { "WritePanic" };
                 fail = Some((class.into(), format!("after {}", g.desc)));
             } else if shape_ok(&after) {
-                if let Some((c, d)) = write_read(&obj, all_compat(&after)) { fail = Some((c, format!("after {}: {}", g.desc, d))); }
+                if let Some((c, d)) = write_read(&obj, all_compat(&after)) {
+                    let c = if seq_under_non_sq_tag(&after) && c.starts_with("ReadBack") { "SequenceUnderNonSqTag".to_string() } else { c };
+                    fail = Some((c, format!("after {}: {}", g.desc, d)));
+                }
             } else {
                 let class = if kind_ok(&after) { "PrimitiveUnderSqVr" } else { "ShapeBroken" };
                 fail = Some((class.into(), format!("after {}: value kind and VR disagree: {:?}", g.desc, after)));
             }
+            if fail.is_none() { fail = prev; }
         }
         steps.push(format!("({}, {}, {}, {})", g.coq, cres, c_obj(&after), c_bool(wp)));
     }
@@ -565,6 +605,9 @@ pub fn cases(ctx: &Ctx) -> Vec<Case> {
             mk_op(&[(Tag(0x0008, 0x1140), 0), (pn, 0)], Tag(0x0010, 0x0020), AttributeAction::SetStr("x".into()), RAct::Set(CPrim::Str("x".into())), "(ASet (PStr [120]))"),
         ];
         out.push(history_case(&mut r, InMemDicomObject::new_empty(), 1, "corpus-nested-failure", Some(ops)));
+        // known: a sequence created under the Pixel Data tag (dictionary VR "OB or OW" is not exact) does not read back in implicit VR
+        let ops = vec![mk_op(&[(Tag(0x7FE0, 0x0010), 0)], Tag(0x0011, 0x1001), AttributeAction::SetStr("x".into()), RAct::Set(CPrim::Str("x".into())), "(ASet (PStr [120]))")];
+        out.push(history_case(&mut r, InMemDicomObject::new_empty(), 1, "corpus-sequence-under-pixel-data", Some(ops)));
         // known: a non-empty primitive value set on an element whose VR is SQ
         let mut o = InMemDicomObject::new_empty();
         o.put(DataElement::new(Tag(0x0008, 0x1140), VR::SQ, DataSetSequence::from(vec![InMemDicomObject::new_empty()])));
